@@ -6,7 +6,11 @@ pub mod driver;
 pub mod engine;
 pub mod lin;
 pub mod pbdecode;
+pub mod quarantine;
 pub mod rng;
 pub mod scen;
 pub mod seams;
 pub mod textparse;
+
+#[global_allocator]
+static ALLOC: quarantine::Quarantine = quarantine::Quarantine;
